@@ -104,6 +104,9 @@ def origins(prog, fi, expr, depth=3, both=False):
                 a, b = of(e.args[0])
                 return set(b), set(b)
             r = prog.resolve_call(fi, e)
+            if isinstance(r, FuncInfo) and is_memoised(r):
+                t = f"memo:{r.qual}"            # the ONE object the cache hands to every caller with these arguments
+                return {t}, {t}
             if isinstance(r, FuncInfo) and depth > 0 and r.node is not fi.node:
                 # what the helper returns, in terms of its own parameters and the instance's parameters
                 ra, rb = set(), set()
@@ -179,6 +182,18 @@ def origins(prog, fi, expr, depth=3, both=False):
     return of(expr) if both else of(expr)[0]
 
 
+def is_memoised(fi):
+    """decorated with functools.lru_cache / functools.cache (with or without arguments)"""
+    for d in getattr(fi.node, "decorator_list", []):
+        x = d.func if isinstance(d, ast.Call) else d
+        if astq.src(x).split(".")[-1] in ("lru_cache", "cache", "cached", "memoize"):
+            return True
+    return False
+
+
+ARRAY_MUTATORS = {"fill", "sort", "resize", "itemset", "put", "partition", "setfield", "byteswap"}
+
+
 def _is_container_display(v):
     return isinstance(v, (ast.Dict, ast.List, ast.Set, ast.DictComp, ast.ListComp, ast.SetComp)) or \
         (isinstance(v, ast.Call) and isinstance(v.func, ast.Name) and v.func.id in ("dict", "list", "set", "defaultdict", "OrderedDict"))
@@ -188,8 +203,13 @@ def container_effects(fi):
     """[(node, container expression, description)] of in-place effects on dict / list / model objects"""
     out = []
     for n in ast.walk(fi.node):
-        if isinstance(n, ast.Call) and isinstance(n.func, ast.Attribute) and n.func.attr in CONTAINER_MUTATORS:
+        if isinstance(n, ast.Call) and isinstance(n.func, ast.Attribute) and n.func.attr in CONTAINER_MUTATORS | ARRAY_MUTATORS:
             out.append((n, n.func.value, f"`{astq.src(n, 50)}`"))
+        elif isinstance(n, ast.Call) and any(k.arg == "out" and isinstance(k.value, (ast.Name, ast.Attribute, ast.Subscript)) for k in n.keywords):
+            o_ = next(k.value for k in n.keywords if k.arg == "out")
+            out.append((n, o_.value if isinstance(o_, ast.Subscript) else o_, f"`{astq.src(n, 50)}` (result written into `{astq.src(o_, 30)}`)"))
+        elif isinstance(n, ast.AugAssign) and isinstance(n.target, (ast.Name, ast.Attribute)):
+            out.append((n, n.target, f"`{astq.src(n, 50)}` (in place for arrays and lists)"))
         elif isinstance(n, (ast.Assign, ast.AugAssign, ast.AnnAssign)):
             for t in (n.targets if isinstance(n, ast.Assign) else [n.target]):
                 for tt in (t.elts if isinstance(t, (ast.Tuple, ast.List)) else [t]):
@@ -227,6 +247,8 @@ def describe(tok):
         return f"the module-level table `{tok[7:].split('.')[-1]}`"
     if tok.startswith("classattr:"):
         return f"the class-level table `{tok[10:]}` (shared by all instances)"
+    if tok.startswith("memo:"):
+        return f"the value memoised by `{tok[5:].split('.')[-1]}` (the cache hands the same object to every later call with these arguments)"
     return tok
 
 
@@ -258,7 +280,7 @@ def shared_at_callers(prog, fi, orgs, depth=3, seen=(), want=None):
     hits = sorted(t for t in origins_ if want(t))
     if hits:
         return True, f"is (part of) {describe(hits[0])} in {fi.node.name}"
-    origins_ = {t for t in origins_ if not t.startswith(("global:", "classattr:")) and t != "self.params"}
+    origins_ = {t for t in origins_ if not t.startswith(("global:", "classattr:", "memo:")) and t != "self.params"}
     if not origins_:
         return False, ""
     if depth == 0 or fi.qual in seen:
@@ -269,6 +291,8 @@ def shared_at_callers(prog, fi, orgs, depth=3, seen=(), want=None):
         for p_ in origins_:
             inner = p_.endswith(".*")
             pn = p_[:-2] if inner else p_
+            if not inner and ((fi.node.args.kwarg is not None and fi.node.args.kwarg.arg == pn) or (fi.node.args.vararg is not None and fi.node.args.vararg.arg == pn)):
+                continue            # **kwargs / *args are a new dict / tuple made for this call: the object itself is nobody else's
             for e_ in _arg_candidates(fi.node, c, m_, pn):
                 og = origins(prog, g, e_, both=True)[1 if inner else 0]
                 st, why = shared_at_callers(prog, g, og, depth - 1, seen + (fi.qual,), want)
@@ -288,7 +312,7 @@ def shared_state_rule(prog, run, rule, quals, what="the result of a call depends
     n_eff = 0
 
     def want(t):
-        return t.startswith(("global:", "classattr:"))
+        return t.startswith(("global:", "classattr:", "memo:"))
     for q in quals:
         fi = prog.functions[q]
         f = rel(prog.mods[fi.mod].path)
